@@ -82,12 +82,12 @@ def run(case, max_steps=30000):
     with World(max_steps=max_steps, trace=('aiuti/asyncio.py',)) as w:
         sim = w.sim
 
-        async def bf(items):
+        async def bf(items, which=0):
             items = list(items)
             b = len(batches)
             state['running'] += 1
             rec = {'id': b, 'start': sim.now, 'items': [(k, a.i if isinstance(a, Arg) else a) for k, a in items],
-                   'conc': state['running'], 'yields': [], 'raised': None, 'end': None}
+                   'conc': state['running'], 'yields': [], 'raised': None, 'end': None, 'batcher': which}
             batches.append(rec)
             try:
                 if case['bdur']:
@@ -136,6 +136,9 @@ def run(case, max_steps=30000):
             loop = aio.get_running_loop()
             t0 = loop.time()
             batcher = make_batcher(A, cfg, bf)
+            # an independent second batcher (own batch function) living in the same loop: nothing of one may
+            # ever reach a caller of the other
+            second = make_batcher(A, cfg, lambda items: bf(items, 1)) if case.get('two_batchers') else None
             tasks = []
 
             async def call(i, c, fresh=False):
@@ -144,11 +147,13 @@ def run(case, max_steps=30000):
                 rec['arrived'] = sim.now
                 rec['seq'] = sum(1 for r in callers if r['arrived'] is not None) - 1
                 kw = {} if c['key'] is None else {'key': c['key']}
+                target = second if (second is not None and c.get('b')) else batcher
+                rec['batcher'] = 1 if target is second else 0
                 try:
                     if c.get('timeout') is not None:
-                        v = await aio.wait_for(batcher(arg, **kw), c['timeout'])
+                        v = await aio.wait_for(target(arg, **kw), c['timeout'])
                     else:
-                        v = await batcher(arg, **kw)
+                        v = await target(arg, **kw)
                     rec['outcome'] = ('ok', v)
                 except aio.CancelledError as e:
                     if not sim.aborted:
